@@ -58,7 +58,13 @@ func (d *dialer) Dial() error {
 		return nil
 	}
 	d.Unlock()
-	return d.dial(false)
+	if err := d.dial(false); err != nil {
+		d.Lock()
+		d.active = false
+		d.Unlock()
+		return err
+	}
+	return nil
 }
 
 func (d *dialer) Close() error {
